@@ -207,19 +207,31 @@ theorem C11_sorted_columns_row_order_free (inc : Bool) (rows₁ rows₂ : List (
       = (rows₂.mergeSort (rowLe inc)).map (fun a => (a.x, a.y)) :=
   fit_mergeSort_perm_keys inc hp
 
-/-- **`fit` does not depend on the row order** (any functional, direction, weights): two samples
-whose rows are permutations of each other give the same result — thresholds or error — provided
-rows with identical `(X, y)` have identical weights. -/
+/-- the isotonic fit of a sorted sample does not depend on which admissible sorted order is used:
+weights may be permuted among rows with identical `(X, y)` (both fits are constant on `X` ties, the
+score of such a sequence is a sum over rows, and the minimiser is unique) -/
+theorem C11_isoReg_tie_order_free (fn : Option Functional) (α : K) (inc : Bool)
+    (s₁ s₂ : List (Row K)) (hs : s₁.Perm s₂)
+    (hs₁ : s₁.Pairwise (fun a b => rowLe inc a b = true))
+    (hs₂ : s₂.Pairwise (fun a b => rowLe inc a b = true))
+    (hkeys : s₁.map (fun a => (a.x, a.y)) = s₂.map (fun a => (a.x, a.y))) :
+    isoReg fn α inc (s₁.map (·.y)) (some (s₁.map (·.w)))
+      = isoReg fn α inc (s₂.map (·.y)) (some (s₂.map (·.w))) :=
+  fit_isoReg_perm_weights fn α inc s₁ s₂ hs hs₁ hs₂ hkeys
+
+/-- **`fit` does not depend on the row order** — any functional, direction, with or without
+weights, duplicate `(X, y)` rows may even carry different weights: two samples (that pass the
+length checks) whose rows are permutations of each other give the same result, thresholds or
+error. -/
 theorem C11_row_order_free (fn : Option Functional) (α : K) (inc : Bool)
     (X₁ y₁ X₂ y₂ : List K) (w₁ w₂ : Option (List K))
     (hX₁ : X₁.length = y₁.length) (hX₂ : X₂.length = y₂.length)
     (hw₁ : ∀ w', w₁ = some w' → w'.length = y₁.length)
     (hw₂ : ∀ w', w₂ = some w' → w'.length = y₂.length)
     (hsome : w₁.isSome = w₂.isSome)
-    (hperm : (fit_rows X₁ y₁ w₁).Perm (fit_rows X₂ y₂ w₂))
-    (hdup : ∀ a ∈ fit_rows X₁ y₁ w₁, ∀ b ∈ fit_rows X₁ y₁ w₁, a.x = b.x → a.y = b.y → a.w = b.w) :
+    (hperm : (fit_rows X₁ y₁ w₁).Perm (fit_rows X₂ y₂ w₂)) :
     isoFit fn α inc X₁ y₁ w₁ = isoFit fn α inc X₂ y₂ w₂ :=
-  fit_isoFit_row_order_free fn α inc X₁ y₁ X₂ y₂ w₁ w₂ hX₁ hX₂ hw₁ hw₂ hsome hperm hdup
+  fit_isoFit_row_order_free_general fn α inc X₁ y₁ X₂ y₂ w₁ w₂ hX₁ hX₂ hw₁ hw₂ hsome hperm
 
 /-- the unweighted case, without any proviso -/
 theorem C11_row_order_free_unweighted (fn : Option Functional) (α : K) (inc : Bool)
@@ -369,6 +381,14 @@ example : fit_TieRun true ([3, 2, 2, 5] : List ℚ) 0 2 ∧ fit_TieRun false ([1
 example : (List.zip [3, 1, 2, 2] [1, 3, 2, 4] : List (ℚ × ℚ)).Perm (List.zip [2, 3, 2, 1] [4, 1, 2, 3]) := by
   decide
 
+/-- `C11_row_order_free`: a genuine permutation in which the duplicated row `(X, y) = (1, 3)` carries
+two different weights -/
+example : (fit_rows [1, 1, 2] [3, 3, 1] (some [1, 5, 2]) : List (Row ℚ)).Perm
+    (fit_rows [1, 2, 1] [3, 1, 3] (some [5, 2, 1])) := by
+  show ([⟨1, 3, 1⟩] ++ [⟨1, 3, 5⟩, ⟨2, 1, 2⟩] : List (Row ℚ)).Perm
+    ([⟨1, 3, 5⟩, ⟨2, 1, 2⟩] ++ [⟨1, 3, 1⟩])
+  exact List.perm_append_comm
+
 end MD.Props
 
 /-
@@ -381,11 +401,14 @@ Sanity checks at `Rat` (`#eval`, not part of the proofs):
     = .ok ([1, 5], [34/9, 34/9])
   isoFit (some .median) (0 : Rat) true [3,1,2,2,5,4,4] [1,3,2,4,5,6,0] none
     = .ok ([1, 4, 5], [5/2, 5/2, 5])
+  isoFit (some .mean) (0 : Rat) true [1,1,2] [3,3,1] (some [1,5,2]) = .ok ([1, 2], [5/2, 5/2])
+  isoFit (some .mean) (0 : Rat) true [1,2,1] [3,1,3] (some [5,2,1]) = .ok ([1, 2], [5/2, 5/2])   -- permuted, conflicting weights
   thresholdIdx [0,2,3] ([1,1,2] : List Rat) [3/2,3/2,3] = [0, 1, 2]
   thresholdIdx [0,2,3,6] ([1,1,2,3,3,3] : List Rat) [3/2,3/2,3,4,4,4] = [0, 1, 2, 3]   -- last block tied in X
   thresholdIdx [0,2,3,6] ([1,1,2,3,3,4] : List Rat) [3/2,3/2,3,4,4,4] = [0, 1, 2, 3, 5]
   interp [1,2,2,4] [1,3,5,7] (2 : Rat) = 5      -- duplicate thresholds with different values: the last one wins
 -/
+
 
 /-
 `#print axioms` (observed with `lake env lean`):
@@ -408,6 +431,7 @@ Sanity checks at `Rat` (`#eval`, not part of the proofs):
 'MD.Props.C11_ties_one_block' depends on axioms: [propext, Classical.choice, Quot.sound]
 'MD.Props.C11_sorted_row_order_free' depends on axioms: [propext, Quot.sound]
 'MD.Props.C11_sorted_columns_row_order_free' depends on axioms: [propext, Quot.sound]
+'MD.Props.C11_isoReg_tie_order_free' depends on axioms: [propext, Classical.choice, Quot.sound]
 'MD.Props.C11_row_order_free' depends on axioms: [propext, Classical.choice, Quot.sound]
 'MD.Props.C11_row_order_free_unweighted' depends on axioms: [propext, Classical.choice, Quot.sound]
 'MD.Props.C11_fit_has_isoReg' depends on axioms: [propext, Classical.choice, Quot.sound]
